@@ -54,6 +54,8 @@ def gen_cases(rng, tier):
     grids = {"nr": rng.choice([3, 5, 9, 21, 40]), "nrho": rng.choice([2, 3, 5, 9])} if target == "excel_eam_fs" else None
     model = spec.gen_eam_model(rng, "fs", groute, target=target, unique_density=unique, grids=grids,
                                nspecies=rng.choice([1, 2, 2, 3, 3, 4]), with_forms=not unique)
+    if groute == "api":
+      model["api_containers"] = rng.choice([None, None, "tuple", "generator", "map"])
     if not unique and i % 4 == 1 and len(model["density"]) >= 2:
       # two A->B definitions that read the same once the blanks between their tokens are removed ('1 25' / '12 5')
       a, b, c = rng.randint(1, 9), rng.randint(1, 9), rng.randint(1, 9)
@@ -83,7 +85,7 @@ def produce(ctx, model, route, rng):
     out = routes.write_tab(routes.eam_tab_api(model))
   elif route == "api_legacy":
     import atsim.potentials as ap
-    pots, eams = routes.eam_api_objects(model)[:2]
+    pots, eams = routes.vary_containers(model, routes.eam_api_objects(model)[:2])
     nr, nrho = int(t["nr"]), int(t["nrho"])
     fp = io.StringIO()
     fn = ap.writeSetFLFinnisSinclair if model["target"] == "setfl_fs" else ap.writeTABEAMFinnisSinclair
@@ -148,6 +150,8 @@ def run_case(case, ctx):
   potable = not route.startswith("api")
   rng = random.Random(case["style"])
   ctx.cls("route:" + route)
+  if model.get("api_containers"):
+    ctx.cls("api_containers:" + model["api_containers"])
   ctx.cls("target:" + model["target"])
   ref = eamref.EamRef(model, potable)
   order = ref.order
